@@ -179,6 +179,7 @@ func cmdCheck(args []string) int {
 	secs := 10
 	if *tier == "thorough" {
 		secs = 120
+		confirmUnsat = true
 	}
 	if *secsFlag > 0 {
 		secs = *secsFlag
@@ -299,6 +300,7 @@ func cmdCheck(args []string) int {
 	}
 	byBackend := map[string]map[string]any{}
 	discharged, nProof, violations, covers, coversOK := 0, 0, 0, 0, 0
+	confirmed := 0
 	solverS := 0.0
 	var samples []any
 	var lines []string
@@ -326,6 +328,9 @@ func cmdCheck(args []string) int {
 			case "unsat":
 				discharged++
 				status = "proved"
+				if o.Confirmed != "" {
+					confirmed++
+				}
 				bb := byBackend[o.Solver]
 				if bb == nil {
 					bb = map[string]any{"count": 0, "secs": 0.0}
@@ -405,6 +410,7 @@ func cmdCheck(args []string) int {
 			"cover_queries_ok":         coversOK,
 			"samples":                  samples,
 			"timeout_s":                secs,
+			"unsat_confirmed_by_second_solver": confirmed,
 			"integer_semantics":        "per function: mode int = mathematical integers with machine ranges assumed on inputs/loads and exact wrap-around for unsigned + - *; mode bv = exact 64-bit vectors",
 		}
 		if len(knownMatched) > 0 {
